@@ -102,6 +102,21 @@ def make_spec(st, idx, tier):
         if polls < max_polls and (lo <= n_full <= hi or (n_full > hi and (n_full - hi) % sparse_every == 0)):
             ops.append(dict(t=round(t + 0.5, 3), k="poll", role="trajectory"))
             polls += 1
+    # operator churn on the SAME client object: the requested levels (and with them the minimum) change while the
+    # trajectory runs -- e.g. a demanding level first, a lenient one later
+    if pi == "nonparametric" and chance(rng, 0.5):
+        poll_idx = [i for i, o in enumerate(ops) if o["k"] == "poll"]
+        if len(poll_idx) >= 4:
+            hi_a = choice(rng, [0.9, 0.95, 0.97]) if amax < 0.9 else round(min(0.985, amax + 0.02), 3)
+            ops.insert(poll_idx[1], dict(t=ops[poll_idx[1]]["t"], k="operator", set=dict(prediction_intervals=[hi_a])))
+            ops.insert(poll_idx[2] + 1, dict(t=ops[poll_idx[2] + 1]["t"], k="operator", set=dict(prediction_intervals=list(alphas))))
+    elif pi != "nonparametric" and chance(rng, 0.4):
+        poll_idx = [i for i, o in enumerate(ops) if o["k"] == "poll"]
+        if len(poll_idx) >= 4:
+            ops.insert(poll_idx[1], dict(t=ops[poll_idx[1]]["t"], k="operator", set=dict(pi_method="nonparametric", estimands=["turnout"], prediction_intervals=[0.93],
+                                                                                      features=[f for f in profile["features"] if f != "baseline_normalized_margin"])))
+            ops.insert(poll_idx[2] + 1, dict(t=ops[poll_idx[2] + 1]["t"], k="operator", set=dict(pi_method=pi, estimands=list(profile["estimands"]),
+                                                                                              prediction_intervals=list(alphas), features=list(profile["features"]))))
     # one duplicate-id poll at the end (a reporting unit delivered twice as two rows)
     if chance(rng, 0.5) and n_full > 0:
         full = [o for o in ops if o["k"] == "deliver" and o["ver"] == 1]
